@@ -4,7 +4,7 @@
    MATCH_NUMBER, partitions, end of stream); the Go engine is tied to it by the correspondence run. *)
 From Coq Require Import List ZArith NArith Bool Arith Lia.
 From Coq Require Import Permutation.
-From SV Require Import Model.Cep Spec.CepSpec Proofs.CepProofs Proofs.CepSugar Proofs.CepChecker.
+From SV Require Import Model.Cep Spec.CepSpec Proofs.CepProofs Proofs.CepSugar Proofs.CepChecker Proofs.CepSparse.
 From SV Require Import Model.CepLab Spec.CepLabSpec Proofs.CepLabProofs.
 Import ListNotations.
 
@@ -114,7 +114,7 @@ Definition ex_cfg : ccfg :=
   mkCfg (desugar (SSeq (SLit 0) (SSeq (SRep 1 None (SLit 1)) (SRep 0 (Some 1) (SLit 2)))))
         [mkDef 1 0; mkDef 2 1; mkDef 4 0] SkPast 10.
 Definition ex_rows : list crow :=
-  [mkCRow 1 0 5 1; mkCRow 2 1 6 2; mkCRow 3 1 7 3; mkCRow 4 2 0 4; mkCRow 5 0 9 5; mkCRow 6 1 10 6].
+  [mkCRow 1 0 5 1 false; mkCRow 2 1 6 2 false; mkCRow 3 1 7 3 false; mkCRow 4 2 0 4 false; mkCRow 5 0 9 5 false; mkCRow 6 1 10 6 false].
 Example C15_example :
   ref_obs ex_cfg ex_rows = [(1, 1%Z, 4%Z, 4); (2, 5%Z, 6%Z, 2)] /\ valid ex_cfg (firstn 4 ex_rows)
   /\ chk_C15 ex_cfg ex_rows [(1, 1%Z, 4%Z, 4); (2, 5%Z, 6%Z, 2)] = None
@@ -133,15 +133,64 @@ Qed.
 Definition ex_defs4 : list cdef := [mkDef 1 0; mkDef 2 0; mkDef 4 0; mkDef 8 0].
 Example C15_asis_witnesses :
   chk_C15 (mkCfg (desugar (SSeq (SLit 0) (SLit 1))) [mkDef 31 0; mkDef 31 0] SkPast 3600000000000)
-          [mkCRow 1 0 0 1; mkCRow 3 0 2 3; mkCRow 5 0 1 5; mkCRow 6 0 2 6]
+          [mkCRow 1 0 0 1 false; mkCRow 3 0 2 3 false; mkCRow 5 0 1 5 false; mkCRow 6 0 2 6 false]
           [(1, 1%Z, 3%Z, 2); (2, 3%Z, 5%Z, 2); (3, 5%Z, 6%Z, 2)] = Some ClSkip
   /\ chk_C15 (mkCfg (desugar (SSeq (SLit 0) (SRep 0 (Some 1) (SSeq (SLit 1) (SLit 2))))) ex_defs4 SkPast 3600000000000)
-          [mkCRow 1 0 0 1; mkCRow 2 1 1 2; mkCRow 3 3 2 3] [] = Some ClOmitted
+          [mkCRow 1 0 0 1 false; mkCRow 2 1 1 2 false; mkCRow 3 3 2 3 false] [] = Some ClOmitted
   /\ chk_C15 (mkCfg (desugar (SRep 1 None (SLit 0))) ex_defs4 SkPast 5)
-          [mkCRow 1 0 0 1; mkCRow 2 0 1 2; mkCRow 3 0 2 10; mkCRow 4 3 0 11] [(1, 3%Z, 3%Z, 1)] = Some ClOmitted
+          [mkCRow 1 0 0 1 false; mkCRow 2 0 1 2 false; mkCRow 3 0 2 10 false; mkCRow 4 3 0 11 false] [(1, 3%Z, 3%Z, 1)] = Some ClOmitted
   /\ chk_C15 (mkCfg (desugar (SAlt (SSeq (SSeq (SLit 0) (SLit 1)) (SLit 2)) (SLit 1))) ex_defs4 SkPast 3600000000000)
-          [mkCRow 1 0 0 1; mkCRow 2 1 1 2; mkCRow 3 2 2 3] [(1, 2%Z, 2%Z, 1)] = Some ClOmitted.
+          [mkCRow 1 0 0 1 false; mkCRow 2 1 1 2 false; mkCRow 3 2 2 3 false] [(1, 2%Z, 2%Z, 1)] = Some ClOmitted.
 Proof. repeat split; vm_compute; reflexivity. Qed.
+
+(* ------------------------------------------------------------------ sparse rows
+   Events are heterogeneous (a heartbeat without the reading next to a reading): a row may lack
+   column c (class code >= 5) or column v (r_vnull). A DEFINE condition that reads a column which the
+   candidate row - or, through PREV, the previous row of the run - does not carry is NULL, i.e. not
+   true, whatever rows evaluated earlier (of this or another partition) carried in that column. *)
+Theorem C15_absent_column_not_true : forall defs prev r v,
+  reads_missing defs prev r v -> sat defs prev r v = false.
+Proof. exact sat_reads_missing. Qed.
+Print Assumptions C15_absent_column_not_true.
+
+(* every reported match has a classification (a word of PATTERN) that labels no row with a variable
+   whose DEFINE reads a column the row (or its PREV row) lacks *)
+Theorem C15_ref_sparse_rows : forall c rows q k, In (q, k) (ref_matches c rows) ->
+  exists w, word_in (c_pat c) w /\ length w = k /\
+    forall i r v, nth_error (firstn k (skipn q rows)) i = Some r -> nth_error w i = Some v ->
+      ~ reads_missing (c_defs c) (prev_at None (firstn k (skipn q rows)) i) r v.
+Proof. exact ref_sparse_rows. Qed.
+Print Assumptions C15_ref_sparse_rows.
+
+(* MEASURES over bare columns (c AS bc, v AS bv) are those of the LAST row of the match: NULL where
+   that row lacks the column *)
+Theorem C15_bare_measure_last_row : forall seg r, bare_obs (seg ++ [r]) = Some (bare_of r).
+Proof. exact bare_obs_last. Qed.
+Print Assumptions C15_bare_measure_last_row.
+
+Theorem C15_bare_measure_absent : forall seg r, (5 <= r_cls r)%N -> r_vnull r = true ->
+  bare_obs (seg ++ [r]) = Some (5%N, None).
+Proof. exact bare_obs_absent. Qed.
+Print Assumptions C15_bare_measure_absent.
+
+(* non-vacuity: PATTERN (A{2}), A AS c = 'a'. A reading (class a), a heartbeat without column c, a
+   reading of class b: no match; a report of rows 1..2 (the heartbeat judged with the reading's
+   column) is rejected. Same for A AS v > PREV(v) .. with a row that lacks v. *)
+Definition exs_cfg : ccfg := mkCfg (desugar (SRep 2 (Some 2) (SLit 0))) [mkDef 1 0] SkPast 3600000000000.
+Definition exs_rows : list crow := [mkCRow 1 0 60 1 false; mkCRow 2 5 0 2 true; mkCRow 3 1 10 3 false].
+Example C15_sparse_example :
+  ref_obs exs_cfg exs_rows = [] /\ chk_C15 exs_cfg exs_rows [] = None
+  /\ chk_C15 exs_cfg exs_rows [(1, 1%Z, 2%Z, 2)] = Some ClValid
+  /\ reads_missing (c_defs exs_cfg) (Some (mkCRow 1 0 60 1 false)) (mkCRow 2 5 0 2 true) 0%N
+  /\ ref_obs (mkCfg (desugar (SSeq (SLit 0) (SRep 1 None (SLit 1)))) [mkDef 31 0; mkDef 31 1] SkPast 3600000000000)
+             [mkCRow 1 0 1 1 false; mkCRow 2 0 2 2 false; mkCRow 3 0 0 3 true; mkCRow 4 0 5 4 false; mkCRow 5 0 6 5 false]
+     = [(1, 1%Z, 2%Z, 2); (2, 4%Z, 5%Z, 2)]
+  /\ bare_obs [mkCRow 1 0 60 1 false; mkCRow 2 5 0 2 true] = Some (5%N, None).
+Proof.
+  split; [vm_compute; reflexivity|]. split; [vm_compute; reflexivity|]. split; [vm_compute; reflexivity|].
+  split; [|split; vm_compute; reflexivity].
+  exists (mkDef 1 0). split; [reflexivity|]. left. simpl. split; lia.
+Qed.
 
 (* ------------------------------------------------------------------ labelled runs (Model/CepLab.v)
    The engine carries the classification of a run (which variable consumed which row); DEFINE
@@ -188,13 +237,13 @@ Print Assumptions C15_lab_checker_iff.
    PATTERN (A+ B), A: class 0, B: v > AVG(A.v) on v = 1 1 1 5 2 0: rows 1..4 (A A A B) is the longest
    match; rows 1..5 is valid under no classification. *)
 Definition exl_rows12 : list crow :=
-  map (fun i => mkCRow (Z.of_nat i) 0 (Z.of_nat (i mod 10)) (Z.of_nat i)) (seq 1 12) ++ [mkCRow 13 4 0 13].
+  map (fun i => mkCRow (Z.of_nat i) 0 (Z.of_nat (i mod 10)) (Z.of_nat i) false) (seq 1 12) ++ [mkCRow 13 4 0 13 false].
 Definition exl_cfg1 : lcfg :=
   mkLCfg (desugar (SSeq (SRep 1 None (SLit 0)) (SLit 1))) [mkADef (mkDef 3 0) 0 0 0; mkADef (mkDef 1 0) 0 0 0] SkPast 3600000000000.
 Definition exl_cfg2 : lcfg :=
   mkLCfg (desugar (SSeq (SRep 1 None (SLit 0)) (SLit 1))) [mkADef (mkDef 1 0) 0 0 0; mkADef (mkDef 31 0) 1 0 0] SkPast 3600000000000.
 Definition exl_rows6 : list crow :=
-  [mkCRow 1 0 1 1; mkCRow 2 0 1 2; mkCRow 3 0 1 3; mkCRow 4 0 5 4; mkCRow 5 0 2 5; mkCRow 6 4 0 6].
+  [mkCRow 1 0 1 1 false; mkCRow 2 0 1 2 false; mkCRow 3 0 1 3 false; mkCRow 4 0 5 4 false; mkCRow 5 0 2 5 false; mkCRow 6 4 0 6 false].
 Example C15_lab_example :
   llongest_at exl_cfg1 exl_rows12 = Some 12
   /\ chk_C15L exl_cfg1 exl_rows12 [((1, 1%Z, 12%Z, 12), [0;0;0;0;0;0;0;0;0;0;0;1]%N)] = None
